@@ -354,7 +354,10 @@ def check_sampler_wiring(chk, mcmc, peds, n_max, logf_of, base_of):
         calls = []
 
         def rec_c(*a, **kw):
-            calls.append(("compound", dict(sig_c.bind(*a, **kw).arguments)))
+            d_ = dict(sig_c.bind(*a, **kw).arguments)
+            calls.append(("compound", d_))
+            sg_ = d_["sample_genotypes"]
+            sg_[0, 0] = (int(sg_[0, 0]) + 1) % P["n"]          # the step works in place (on the sampler's own copy of the state)
 
         def rec_s(*a, **kw):
             d = dict(sig_s.bind(*a, **kw).arguments)
@@ -364,11 +367,15 @@ def check_sampler_wiring(chk, mcmc, peds, n_max, logf_of, base_of):
 
         n_steps = 2
         g["compound_step"], g["pair_allele_swap_step"] = rec_c, rec_s
+        given_state = P["state"].copy()
         try:
-            f(P["state"].copy(), P["ploidy"], P["parents"], P["tau"], P["lam"], P["err"], P["reads"], P["counts"], P["haps"], logf_of(P),
+            f(given_state, P["ploidy"], P["parents"], P["tau"], P["lam"], P["err"], P["reads"], P["counts"], P["haps"], logf_of(P),
               n_steps=n_steps, annealing=0, step_type=pi % 2, swap_parental_alleles=True)
         finally:
             g["compound_step"], g["pair_allele_swap_step"] = orig_c, orig_s
+        if not np.array_equal(given_state, P["state"]):
+            chk.violation("mcmc_sampler changes the initial genotypes of its caller (every chain of a fit starts from them)",
+                          base_of(P), "C18/sampler/initial-state-modified")
         par = P["parents"]
         N = P["N"]
         want_pairs = sorted({tuple(sorted((int(par[i, 0]), int(par[i, 1])))) for i in range(N) if par[i, 0] >= 0 and par[i, 1] >= 0})
